@@ -83,3 +83,10 @@ package weshnet
 //@   at getEntriesInRange requires [C13.list.message.order] len(entries) == loglen(oplog(addr(m.BaseStore)))
 //@     && (forall i {entries[i]} :: 0 <= i && i < len(entries) ==> entries[i] == logat(oplog(addr(m.BaseStore)), i))
 //@   ensures ret1 != nil ==> ret0 == nil
+
+//@ # ======================= C15: the counter the priority queue orders by =======================
+//@ func (*messageItem).Counter
+//@   for C15
+//@   safety
+//@   requires m != nil && m.headers != nil
+//@   ensures [C15.item.counter] result == m.headers.Counter
